@@ -262,6 +262,7 @@ pub struct BlockFees {
 	#[serde(with = "secp_ser::string_or_u64")]
 	pub height: u64,
 	/// key id
+	#[serde(default, deserialize_with = "dalek_ser::option_identifier_from_hex")]
 	pub key_id: Option<Identifier>,
 }
 
